@@ -169,7 +169,7 @@ def mkprobe(name, shape=None, setup=False):
         ex = B.cur_exec()
         tok = B.cur_token()
         B.REACH["FENTER"] += 1
-        B.ev("FENTER", token=tok, node=node, fn=name, args=a, kwargs=dict(k))
+        B.ev("FENTER", token=tok, node=node, fn=name, args=a, kwargs=dict(k), ctx=B.REQ.get())
         from .sym import copies_in
 
         for x in copies_in(a, k):
@@ -242,11 +242,16 @@ def run_op(label, thunk, **info):
     import time
 
     B.new_epoch()
-    s0 = B.ev("OP_BEGIN", op=label, **info)
+    req = "req-%d" % next(B._ids)
+    rtok = B.REQ.set(req)
+    s0 = B.ev("OP_BEGIN", op=label, req=req, **info)
     me = threading.get_ident()
     CURRENT_OPS[me] = (label, time.monotonic())
     try:
-        val = thunk()
+        try:
+            val = thunk()
+        finally:
+            B.REQ.reset(rtok)
     except BaseException as e:  # noqa: BLE001
         CURRENT_OPS.pop(me, None)
         B.ev("OP_END", op=label, ok=False, exc=type(e).__name__, begin=s0)
